@@ -470,7 +470,9 @@ GCC_SENTINEL = ' _Static_assert(1, "");'
 def _gcc(src):
     """Lines (1-based, preamble not counted) with a syntax diagnostic."""
     r = subprocess.run(
-        ["gcc", "-std=c11", "-fsyntax-only", "-w", "-fmax-errors=0", "-x", "c", "-"],
+        ["gcc", "-std=c11", "-fsyntax-only", "-w", "-fmax-errors=0",
+         # pycparser input is preprocessed text in which offsetof is still a keyword-like name
+         "-Doffsetof(t,m)=__builtin_offsetof(t,m)", "-x", "c", "-"],
         input=(GCC_PREAMBLE + src).encode(), stdout=subprocess.PIPE, stderr=subprocess.PIPE,
     )
     out = []
